@@ -200,7 +200,17 @@ pub enum Op {
     /// `pat`: true = next, false = next_back; `clone_at`: step before which the iterator is
     /// cloned (shared iterators only; 255 = never); the clone is then driven by the reversed
     /// remaining pattern. `write`: write fresh tokens through a mutable iterator.
-    Iter { list: u8, fam: u8, pat: Vec<bool>, clone_at: u8, write: bool },
+    /// `fin`: how the rest of the iterator is consumed after the `pat` steps (0 = `count()`;
+    /// otherwise one of the std-provided consumption paths, see `iter_finish`)
+    Iter {
+        list: u8,
+        fam: u8,
+        pat: Vec<bool>,
+        clone_at: u8,
+        write: bool,
+        #[serde(default)]
+        fin: u8,
+    },
     // ---- cloneable kinds
     /// clone, keep driving the clone, drop the original
     CloneSwap,
@@ -390,6 +400,88 @@ pub struct IterOut {
     pub clone_count_rest: usize,
     /// two extra calls after exhaustion must return None
     pub fused_ok: bool,
+    /// what the `fin` consumption path produced (items in the order produced) and the
+    /// lengths it observed on the way
+    #[serde(default)]
+    pub fin_items: Vec<(i32, i64)>,
+    #[serde(default)]
+    pub fin_lens: Vec<usize>,
+}
+
+pub const N_FIN: u8 = 13;
+pub const FIN_NAMES: [&str; 13] = ["count", "last", "nth", "nth_back", "fold", "rev", "skip", "step_by", "by_ref.take.count", "rfold", "rev.last", "skip.next_back", "for-break-rev"];
+
+/// Consume the rest of an iterator through one of the paths the standard library offers
+/// besides next/next_back. The same function runs on the library's iterator and on a
+/// `vec::IntoIter` of the expected remaining items: the Iterator contract (every provided
+/// method behaves like its default implementation) is the oracle.
+/// Returns (items produced, lengths observed, count of what is left at the very end).
+pub fn iter_finish<I, F>(mut it: I, fin: u8, f: &mut F) -> (Vec<(i32, i64)>, Vec<usize>, usize)
+where
+    I: DoubleEndedIterator + ExactSizeIterator,
+    F: FnMut(I::Item) -> (i32, i64),
+{
+    let mode = fin % N_FIN;
+    let arg = (fin / N_FIN) as usize; // 0..=19
+    let m = it.len();
+    let k = arg % (m + 3);
+    let mut items = Vec::new();
+    let mut lens = vec![m];
+    match mode {
+        0 => return (items, lens, it.count()),
+        1 => items.extend(it.last().map(&mut *f)),
+        2 | 3 => {
+            // nth / nth_back (also past the end: everything is consumed then), then one more step
+            let x = if mode == 2 { it.nth(k) } else { it.nth_back(k) };
+            items.extend(x.map(&mut *f));
+            lens.push(it.len());
+            lens.push(it.size_hint().0);
+            let y = if mode == 2 { it.next() } else { it.next_back() };
+            items.extend(y.map(&mut *f));
+            lens.push(it.len());
+            let z = if mode == 2 { it.next_back() } else { it.next() };
+            items.extend(z.map(&mut *f));
+            lens.push(it.len());
+            return (items, lens, it.count());
+        }
+        4 => it.fold((), |(), x| items.push(f(x))),
+        5 => items.extend(it.rev().map(&mut *f)),
+        6 => {
+            let sk = it.skip(k);
+            lens.push(sk.len());
+            items.extend(sk.map(&mut *f));
+        }
+        7 => items.extend(it.step_by(1 + arg % 3).map(&mut *f)),
+        8 => {
+            let c = it.by_ref().take(k).count();
+            lens.push(c);
+            lens.push(it.len());
+            items.extend(it.map(&mut *f));
+        }
+        9 => it.rfold((), |(), x| items.push(f(x))),
+        10 => items.extend(it.rev().last().map(&mut *f)),
+        11 => {
+            let mut sk = it.skip(k);
+            let x = sk.next_back();
+            items.extend(x.map(&mut *f));
+            lens.push(sk.len());
+            items.extend(sk.map(&mut *f));
+        }
+        _ => {
+            // for-loop with an early break, then the rest backwards
+            let mut taken = 0;
+            for x in it.by_ref() {
+                items.push(f(x));
+                taken += 1;
+                if taken > k {
+                    break;
+                }
+            }
+            lens.push(it.len());
+            items.extend(it.rev().map(&mut *f));
+        }
+    }
+    (items, lens, 0)
 }
 
 #[derive(Clone, Debug, PartialEq, Serialize, Deserialize)]
